@@ -126,30 +126,39 @@ def checkInjection (cs : SimCase) (c : Compiled) : Option String := Id.run do
     first := false
   return none
 
+/-- the model's lines for one compiled case -/
+def simLines (cs : SimCase) (c : Compiled) : List String :=
+  let bits := (wbits cs.sh.rsize).getD 8
+  let tr := simLoop (fabricStep cs.topo) c cs.stopOn cs.report cs.ticks (initVm cs.sh cs.topo)
+  let hdr := if cs.report then
+      ["C hdr=" ++ ",".intercalate ((if c.conf.getTicks then ["tick"] else []) ++ c.gets.slots.map (·.name))]
+    else []
+  let body := tr.flatMap fun r =>
+    (if r.shutdown then [] else [s!"K t={r.tick} pre={ioCells cs.sh r.pre} post={ioCells cs.sh r.stepped}"])
+    ++ (if r.shown.isEmpty then [] else [s!"W after={if r.shutdown then r.tick - 1 else r.tick} vals={enhex (showLine bits r.shown)}"])
+  let rows := tr.flatMap fun r =>
+    match r.reported with | some vals => ["C row=" ++ csvRow c bits r.tick vals] | none => []
+  let cls := match tr.getLast? with
+    | some r => if r.fatal == 0 then "ok"
+                else if r.fatal == 1 && hasZeroPeriod c.shows then "divzero"
+                else if r.fatal == 2 && hasZeroPeriod c.gets && !(c.conf.getAll || c.conf.getAllInternal) then "divzero"
+                else "fatal"
+    | none => "ok"
+  body ++ hdr ++ rows ++ ["X " ++ cls]
+
 def runSim (cs : SimCase) : List String :=
   match compile cs.sh cs.bondNames cs.rules with
   | .error _ => ["X init", "P ok"]
   | .ok c =>
-    let bits := (wbits cs.sh.rsize).getD 8
-    let tr := simLoop (fabricStep cs.topo) c cs.stopOn cs.report cs.ticks (initVm cs.sh cs.topo)
-    let hdr := if cs.report then
-        ["C hdr=" ++ ",".intercalate ((if c.conf.getTicks then ["tick"] else []) ++ c.gets.slots.map (·.name))]
-      else []
-    let body := tr.flatMap fun r =>
-      (if r.shutdown then [] else [s!"K t={r.tick} pre={ioCells cs.sh r.pre} post={ioCells cs.sh r.stepped}"])
-      ++ (if r.shown.isEmpty then [] else [s!"W t={r.tick} vals={enhex (showLine bits r.shown)}"])
-    let rows := tr.flatMap fun r =>
-      match r.reported with | some vals => ["C row=" ++ csvRow c bits r.tick vals] | none => []
-    let cls := match tr.getLast? with
-      | some r => if r.fatal == 0 then "ok"
-                  else if r.fatal == 1 && hasZeroPeriod c.shows then "divzero"
-                  else if r.fatal == 2 && hasZeroPeriod c.gets && !(c.conf.getAll || c.conf.getAllInternal) then "divzero"
-                  else "fatal"
-      | none => "ok"
     let verdict := match checkInjection cs c with
       | none => "P ok"
       | some w => "P fail " ++ w
-    body ++ hdr ++ rows ++ ["X " ++ cls, verdict]
+    -- "A" lines: what the model predicts when periodic set rules are compiled but never applied
+    -- (the recorded defect); used only to recognise that defect's signature exactly
+    let alt := if c.acts.any (·.periodic) then
+        (simLines cs { c with acts := c.acts.filter (!·.periodic) }).map ("A " ++ ·)
+      else []
+    simLines cs c ++ [verdict] ++ alt
 
 structure St where
   box : Box := []
